@@ -180,11 +180,24 @@ func genValidVLA(c *RNG) rtp.VLA {
 	return v
 }
 
+// vlaEqual: equal as VLAs - the sizes and the frame rate of a layer are part of the value only under the
+// resolution flag (the struct documents them as valid only then)
 func vlaEqual(a, b rtp.VLA) bool {
-	if len(a.ActiveSpatialLayer) == 0 && len(b.ActiveSpatialLayer) == 0 {
-		a.ActiveSpatialLayer, b.ActiveSpatialLayer = nil, nil
+	norm := func(v rtp.VLA) rtp.VLA {
+		out := v
+		out.ActiveSpatialLayer = nil
+		for _, l := range v.ActiveSpatialLayer {
+			if !v.HasResolutionAndFramerate {
+				l.Width, l.Height, l.Framerate = 0, 0, 0
+			}
+			if len(l.TargetBitrates) == 0 {
+				l.TargetBitrates = nil
+			}
+			out.ActiveSpatialLayer = append(out.ActiveSpatialLayer, l)
+		}
+		return out
 	}
-	return reflect.DeepEqual(a, b)
+	return reflect.DeepEqual(norm(a), norm(b))
 }
 
 func init() {
